@@ -16,5 +16,13 @@ CLAIMS["C17"] = {
     "text": "One inductive step of the certificate module from an arbitrary store state (0..2, thorough 3, certificates with symbolic serials/owners/states) through the real keeper, message validation and every listing/lookup path, on the engine's KV-store and codec models; obligations: registration only by the named account, uniqueness per owner+serial, revocation only valid->revoked for the named owner, nothing removed, every certificate found and listed with correct serial and state, listings never fail.",
     "note": "Trusted: store model (ordered association list), codec model (deep copy), certificate tokens instead of X.509/PEM bytes, bech32 bijection. Serials bounded to 3 bytes (thorough 9); 2^159 is outside the bound. Pagination is outside.",
 }
+CLAIMS["C03"] = {
+    "text": "One inductive step of the real escrow keeper (all seven public operations) from an arbitrary store state satisfying the invariant, at an arbitrary height (gap 0 included), on the engine's store/codec models with a ledger bank; obligations: payment open only under an open account, closed/overdrawn records have zero balance and never change, a successful close takes effect (same-block and zero-balance cases are forced reach labels), nothing is removed, and the real ValidateGenesis accepts the real ExportGenesis of the post-state.",
+    "note": "Trusted: store/codec/context models, ledger bank contract, bech32 bijection, integer model; histories are covered by induction over the stated invariant (an invariant state that no history reaches could only cause a spurious alarm, none occurs on the unchanged tree). <=2 payments on the focus account per step.",
+}
+CLAIMS["C01"] = {
+    "text": "Same keeper-level inductive step as C03 with the conservation clause: after every operation the ledger's escrow-module balance equals the sum of all recorded account and payment balances plus the outside-universe remainder; deposits debit exactly the depositor, payouts go only to parties of the account operated on, failed operations move nothing; plus the settlement-kernel conservation obligations of C02.",
+    "note": "Trusted as C03. The bank is the two-method contract of x/escrow/keeper/external.go; x/bank internals, fees and the handler-level wiring (only escrow moves escrow coins) are outside this check until the chain-step harness is registered.",
+}
 NOT_APPLICABLE = {}
 NOTES = "Work in progress: checks are added property by property; see DESIGN.md §9 for deviations from the plan."
